@@ -65,17 +65,22 @@ RULE = ("import graphs written as packages under the scratch directory and loade
         "with or without resolve_aliases between loads; then resolve, resolve, dereference every alias, resolve (every third case first "
         "dereferences lazily one alias at a time, recording links after each); every second case of (1)-(4) runs on the pristine tree "
         "(expand_exports / expand_wildcards overridden by no-ops on the loader, so that no alias has been dereferenced before the first operation); "
-        "(5) implementation only: random graphs over packages p, _p, q of which one is loaded and the others are side-loaded "
-        "during resolve_aliases(external=True / None), three calls, with load / expand_wildcards / resolve_module_aliases traced through the "
-        "public methods - wildcard-free, and (5b) with wildcard imports between the packages. "
+        "every fifth case of (1)-(4) calls resolve_aliases(implicit=False) (non-exported aliases carry the model's skip bit); __all__ forms "
+        "include lists built from a list of the module itself, which expand_exports leaves unexpanded in Module.exports; "
+        "(3c) a package plus a stubs-only distribution for it in another search path (load(find_stubs_package=True)), both random import "
+        "graphs, with a stub-only submodule importing names that may not exist; "
+        "(5) implementation only: random graphs over packages p, _p, q of which one or two are loaded (both orders) and the others are "
+        "side-loaded during resolve_aliases(external=True / None, implicit True / False), three calls, with load / expand_wildcards / "
+        "resolve_module_aliases traced through the public methods - wildcard-free, and (5b) with wildcard imports between the packages "
+        "(package-level `from other import *` re-exports made frequent, so that several packages import the same unloaded one). "
         "non-trivial = at least one alias or an escape; "
         "distinct by canonical case value")
 TRUSTED = ["abstraction: Snapshot walks collection.members / Object.members and reads Alias._target, target_path, _passed_through, name; "
            "aliases manufactured by Alias.members are encoded as (path, member) references",
            "known-finding attribution of C06-F3 / C06-F9 is the extracted model's link_verdict, required to agree with the harness mirror classify_partial",
            "known-finding attribution of C06-F6 / F7 / F8 (side-loading, wildcard expansion: not modelled) are harness predicates over the traced calls and the live tree"]
-ASSUMPTIONS = ["packages are static source trees with __init__.py (no namespace packages, stubs or inspection)",
-               "model correspondence uses resolve_aliases(implicit=True, external=False); external=True/None only in the implementation-only side-loading streams",
+ASSUMPTIONS = ["packages are static source trees with __init__.py (no namespace packages or inspection; stubs only as a stubs-only distribution in a second search path)",
+               "model correspondence uses resolve_aliases(external=False), implicit True or False (False: the harness marks the aliases not listed as strings in their module's __all__ with the skip bit); external=True/None only in the implementation-only side-loading streams",
                "pristine cases override the public methods expand_exports / expand_wildcards on the loader instance (as a subclass could)"]
 
 ALARM_S = 4
@@ -96,6 +101,23 @@ def write_packages(files: dict, root: str):
             path = os.path.join(root, *parts, "__init__.py")
         else:
             path = os.path.join(root, *parts[:-1], parts[-1] + ".py")
+        os.makedirs(os.path.dirname(path), exist_ok=True)
+        with open(path, "w") as f:
+            f.write(src)
+
+
+def write_stub_packages(stubs: dict, root: str):
+    """stubs: dotted module name -> .pyi source, written as a stubs-only distribution `<top>-stubs/` under `root`
+    (another search path than the one of the package itself)."""
+    shutil.rmtree(root, ignore_errors=True)
+    pk = {m for m in stubs for n in stubs if n.startswith(m + ".")}
+    for m, src in stubs.items():
+        parts = m.split(".")
+        parts[0] += "-stubs"
+        if m in pk or len(parts) == 1:
+            path = os.path.join(root, *parts, "__init__.pyi")
+        else:
+            path = os.path.join(root, *parts[:-1], parts[-1] + ".pyi")
         os.makedirs(os.path.dirname(path), exist_ok=True)
         with open(path, "w") as f:
             f.write(src)
@@ -146,7 +168,10 @@ class Snapshot:
     """nodes[i] = ["obj", path, container?, [[name, id]...]] | ["alias", path, target_parts, target_ref, passed, wild]
     target_ref = [] | ["real", id] | ["virt", path, id]; objs[i] is the live object."""
 
-    def __init__(self, loader):
+    def __init__(self, loader, implicit=True):
+        """implicit=False: resolve_module_aliases skips the aliases that are not exported (`name in parent.__all__`,
+        strings only); they get the same skip bit as wildcard pseudo-members (the model's loop treats both alike)."""
+        self.implicit = implicit
         from _griffe.enumerations import Kind
         from _griffe.models import Alias
         self.nodes = []
@@ -169,12 +194,19 @@ class Snapshot:
         self.nodes.append(None)
         self.objs.append(o)
         if o.is_alias:
-            self.nodes[i] = ["alias", o.path, o.target_path.split("."), None, bool(o._passed_through), o.name.endswith("/*")]
+            self.nodes[i] = ["alias", o.path, o.target_path.split("."), None, bool(o._passed_through),
+                             o.name.endswith("/*") or (not self.implicit and not self.exported(o))]
             self.pending.append(i)
         else:
             self.nodes[i] = ["obj", o.path, o.kind in (self.Kind.MODULE, self.Kind.CLASS), None]
             self.nodes[i][3] = [[name, self.add(m)] for name, m in o.members.items()]
         return i
+
+    def exported(self, o):
+        parent = o._parent
+        if parent is None or parent.is_alias or not parent.is_module or not parent.exports:
+            return False
+        return o.name in [e for e in parent.exports if isinstance(e, str)]
 
     def ref(self, t):
         if t is None:
@@ -228,7 +260,7 @@ def structure(loader):
 
 
 def run_impl(files: dict, loads: list, root: str, interleave: bool = False, ops=("resolve", "resolve", "deref", "resolve"),
-             pristine: bool = False):
+             pristine: bool = False, implicit: bool = True, stubs: dict | None = None):
     """Load the packages in `loads` order into one collection, then run `ops`. Everything observable is returned.
 
     pristine: expand_exports / expand_wildcards are overridden by no-ops on the loader instance, so that the tree is
@@ -240,9 +272,13 @@ def run_impl(files: dict, loads: list, root: str, interleave: bool = False, ops=
            "heap": model input term (abstracted before the first op), "obs": [per-op observation], "states": [...]}"""
     import griffe
     write_packages(files, root)
+    search_paths = [root]
+    if stubs:
+        write_stub_packages(stubs, root + "-typeshed")
+        search_paths.append(root + "-typeshed")
     rec = {"stage": None, "fail": None, "heap": None, "obs": [], "states": [], "pre_unstable": False, "mid": [],
            "structs": [], "leaked": []}
-    loader = griffe.GriffeLoader(search_paths=[root], allow_inspection=False)
+    loader = griffe.GriffeLoader(search_paths=search_paths, allow_inspection=False)
     rec["loader"] = loader
     if pristine:
         loader.expand_exports = lambda *a, **k: None
@@ -252,17 +288,17 @@ def run_impl(files: dict, loads: list, root: str, interleave: bool = False, ops=
         """Record an escape; abstract the collection as it is now so that the model can confirm the error is genuine."""
         rec["stage"], rec["fail"] = stage, r
         try:
-            rec["esc_snap"] = Snapshot(loader)
+            rec["esc_snap"] = Snapshot(loader, implicit)
         except Exception:  # noqa: BLE001
             rec["esc_snap"] = None
         return rec
 
     for k, pkg in enumerate(loads):
-        r = guarded(lambda: loader.load(pkg, try_relative_path=False))
+        r = guarded(lambda: loader.load(pkg, try_relative_path=False, find_stubs_package=bool(stubs)))
         if r[0] != "ok":
             return escaped(f"load:{pkg}", r)
         if interleave and k + 1 < len(loads):
-            r = guarded(lambda: loader.resolve_aliases(implicit=True, external=False))
+            r = guarded(lambda: loader.resolve_aliases(implicit=implicit, external=False))
             if r[0] != "ok":
                 rec["stage"], rec["fail"] = f"resolve-after:{pkg}", r
                 return rec
@@ -280,13 +316,13 @@ def run_impl(files: dict, loads: list, root: str, interleave: bool = False, ops=
         prev = cur
     else:
         rec["pre_unstable"] = True
-    snap = Snapshot(loader)
+    snap = Snapshot(loader, implicit)
     rec["snap"] = snap
     rec["heap"] = snap.term()
     rec["states"].append(snap.state())
     for op in ops:
         if op == "resolve":
-            r = guarded(lambda: loader.resolve_aliases(implicit=True, external=False))
+            r = guarded(lambda: loader.resolve_aliases(implicit=implicit, external=False))
             if r[0] != "ok":
                 rec["stage"], rec["fail"] = f"op{len(rec['obs'])}:resolve", r
                 return rec
@@ -374,8 +410,13 @@ def export_line(rng, names, lines):
     references expand_exports follows, through whatever the name is bound to (module, module alias, anything else)."""
     lit = repr([rng.choice(names) for _ in range(rng.randint(0, 2))])
     r = rng.random()
-    if r < 0.4:
+    if r < 0.3:
         return f"__all__ = {lit}"
+    if r < 0.4:
+        # a list defined in the module itself: expand_exports cannot expand the name, it stays in Module.exports
+        extra = repr([rng.choice(names)])
+        return rng.choice([f"_BASE = {extra}\n__all__ = _BASE + {lit}", f"_BASE = {extra}\n__all__ = {lit}\n__all__ += _BASE",
+                           f"_BASE = {extra}\n__all__ = [*_BASE, *{lit}]"])
     pool = bound_names(lines) or names
     ref = rng.choice(pool) if rng.random() < 0.8 else rng.choice(names + LEAVES + ["K", "zz", "__all__"])
     ref = ref if ref == "__all__" else ref + ".__all__"
@@ -415,8 +456,12 @@ def exports_family(rng, mods=("p", "p.a", "p.b")):
         r = rng.random()
         lit = f"['X{leaf[m]}']"
         refs = bound or ["zz"]
-        if r < 0.15:
+        if bound and rng.random() < 0.5:
+            lit = repr([f"X{leaf[m]}"] + rng.sample(bound, rng.randint(1, len(bound))))      # the re-exports are exported too
+        if r < 0.1:
             pass
+        elif r < 0.2:
+            lines.append(f"_OWN = {lit}\n__all__ = _OWN + {[rng.choice(bound)] if bound else []!r}")   # stays unexpanded
         elif r < 0.3:
             lines.append(f"__all__ = {lit}")
         elif r < 0.7:
@@ -476,6 +521,35 @@ def random_graph(rng, mods, names, pkgs=("p",), p_wild=0.18, p_through=0.2, maxl
                 lines.append(f"import {tgt}" + (f" as {nm}" if rng.random() < .6 else ""))
         files[m] = "\n".join(lines) + "\n"
     return files
+
+
+STUB_SRC_MODS = ["p", "p.a", "p.b"]
+STUB_PYI_MODS = ["p", "p.a", "p.c"]              # p.c: a stub-only submodule (a compiled helper has no .py)
+
+
+def random_stubs(rng):
+    """A package and a stubs-only distribution for it found in another search path (`p` + `<typeshed>/p-stubs`,
+    load(find_stubs_package=True)): both sides are random import graphs, the stubs re-export from the package, and the
+    stub-only submodule imports names that may not exist anywhere."""
+    files = random_graph(rng, STUB_SRC_MODS, NAMES, p_wild=0.08, p_through=0.15, maxlines=3)
+    stubs = {}
+    for m in STUB_PYI_MODS:
+        lines = []
+        for _ in range(rng.randint(1, 3)):
+            nm = rng.choice(NAMES)
+            k = rng.random()
+            if k < 0.3:
+                lines.append(f"def {nm}() -> None: ...")
+            elif k < 0.75:
+                tgt = rng.choice(STUB_SRC_MODS + STUB_PYI_MODS + ["p._native", "p.zz", "zz"])
+                src = rng.choice(NAMES + ["K"])
+                lines.append(f"from {tgt} import {src} as {nm}")
+            elif k < 0.85:
+                lines.append(f"from {rng.choice(STUB_SRC_MODS + STUB_PYI_MODS)} import *")
+            else:
+                lines.append(f"__all__ = {[rng.choice(NAMES)]!r}")
+        stubs[m] = "\n".join(lines) + "\n"
+    return files, stubs
 
 
 def graph_features(files):
@@ -652,22 +726,28 @@ OPS = ["resolve", "resolve", "deref", "resolve"]
 OPS_TRACE = ["deref-trace"] + OPS                     # lazy dereferencing first, one alias at a time
 
 
-def run_batch(ctx, batch, label, use_model=True, pristine_share=2):
+def run_batch(ctx, batch, label, use_model=True, pristine_share=2, implicit_share=5):
     """batch: list of (files, loads, interleave). Implementation first, then one model call for the whole batch."""
     root = str(ctx.scratch / "pk")
     live = []
-    for k, (files, loads, interleave) in enumerate(batch):
+    for k, item in enumerate(batch):
+        files, loads, interleave = item[:3]
+        stubs = item[3] if len(item) > 3 else None
         if len(ctx.prop_failures) >= 20:
             break                                        # enough new violations to report; do not burn watchdog time
         ops = OPS_TRACE if k % 3 == 2 else OPS
         pristine = bool(pristine_share) and (k % pristine_share == pristine_share - 1)
-        case = {"files": files, "loads": loads, "interleave": interleave, "ops": ops, "pristine": pristine}
-        rec = run_impl(files, loads, root, interleave, ops, pristine)
+        # resolve_aliases(implicit=False) (its default): only the aliases listed in their module's __all__ are resolved
+        implicit = not (implicit_share and k % implicit_share == implicit_share - 1)
+        case = {"files": files, "loads": loads, "interleave": interleave, "ops": ops, "pristine": pristine, "implicit": implicit}
+        if stubs:
+            case["stubs"] = stubs
+        rec = run_impl(files, loads, root, interleave, ops, pristine, implicit, stubs)
         if rec["stage"] and rec["fail"][0] == "timeout":
             ctx.count("watchdog_hit_retried")          # only a hang that survives the long limit is reported
             _alarm_s[0] = ALARM_RETRY_S
             try:
-                rec = run_impl(files, loads, root, interleave, ops, pristine)
+                rec = run_impl(files, loads, root, interleave, ops, pristine, implicit, stubs)
             finally:
                 _alarm_s[0] = ALARM_S
         rec["ops"] = ops
@@ -676,6 +756,7 @@ def run_batch(ctx, batch, label, use_model=True, pristine_share=2):
         ctx.case(case, nontrivial=n_alias > 0 or rec["stage"] is not None)
         ctx.observe("stream", label)
         ctx.observe("pristine", pristine)
+        ctx.observe("implicit", implicit)
         ctx.observe("n_aliases", min(n_alias, 12))
         ctx.observe("wildcards", min(len(feats["wildcards"]), 4))
         ok = evaluate(ctx, files, loads, rec, case)
@@ -790,6 +871,8 @@ def random_external(rng):
                 tgt = rng.choice(mods + ["zz"])
                 src = rng.choice(NAMES[:2])
                 lines.append(f"from {tgt} import {src}" + ("" if src == nm else f" as {nm}"))
+        if rng.random() < 0.4:
+            lines.append(f"__all__ = {rng.sample(NAMES[:2], rng.randint(1, 2))!r}")
         files[m] = "\n".join(lines) + "\n"
     return files
 
@@ -801,6 +884,9 @@ def random_external_wild(rng):
     files = {}
     for m in mods:
         lines = []
+        if "." not in m and rng.random() < 0.5:
+            # a package re-exporting another package wholesale (several packages may import the same one)
+            lines.append(f"from {rng.choice([t for t in EXT_MODS if t != m])} import *")
         for _ in range(rng.randint(1, 3)):
             nm = rng.choice(NAMES[:2])
             k = rng.random()
@@ -811,8 +897,21 @@ def random_external_wild(rng):
             else:
                 src = rng.choice(NAMES[:2])
                 lines.append(f"from {rng.choice(mods + ['zz'])} import {src}" + ("" if src == nm else f" as {nm}"))
+        if rng.random() < 0.25:
+            lines.append(f"__all__ = {rng.sample(NAMES[:2], rng.randint(1, 2))!r}")
         files[m] = "\n".join(lines) + "\n"
     return files
+
+
+def side_loads(rng, external):
+    """Which packages are loaded before resolve_aliases, and in which order: one or two of the three, both orders (a
+    wildcard import that cannot be expanded when its module is visited may become expandable once a module visited
+    later has side-loaded the package: with external=None only `p` may load its private sibling `_p`)."""
+    k = rng.random()
+    if k < 0.35:
+        return [rng.choice(["p", "q", "_p"]) if external else rng.choice(["p", "q"])]
+    pair = rng.sample(["p", "q", "_p"] if (external and rng.random() < 0.3) else ["p", "q"], 2)
+    return pair
 
 
 def tree_aliases(loader):
@@ -900,12 +999,13 @@ class LoaderTrace:
         loader.resolve_module_aliases, loader.load, loader.expand_wildcards = rma, load, expand
 
 
-def run_external(ctx, files, loads, external, label, _retry=False):
+def run_external(ctx, files, loads, external, label, _retry=False, implicit=True):
     """Implementation vs property with packages side-loaded during resolve_aliases (three calls)."""
     import griffe
     root = str(ctx.scratch / "ext")
     write_packages(files, root)
-    case = {"files": files, "loads": loads, "external": external, "stream": label}
+    case = {"files": files, "loads": loads, "external": external, "stream": label, "implicit": implicit}
+    ctx.observe("side_loading(loads,external,implicit)", f"{len(loads)},{external},{implicit}")
     ctx.case(case, True)
     ctx.observe("stream", label)
     has_wild = graph_features(files)["has_wildcard"]
@@ -932,7 +1032,7 @@ def run_external(ctx, files, loads, external, label, _retry=False):
             ctx.count("watchdog_hit_retried")
             _alarm_s[0] = ALARM_RETRY_S
             try:
-                return run_external(ctx, files, loads, external, label, _retry=True)
+                return run_external(ctx, files, loads, external, label, _retry=True, implicit=implicit)
             finally:
                 _alarm_s[0] = ALARM_S
         iter_err = r[0] == "raise" and (
@@ -955,11 +1055,11 @@ def run_external(ctx, files, loads, external, label, _retry=False):
     for k in range(3):
         if k == 1:
             first_trace = list(trace.events)
-        r = guarded(lambda: loader.resolve_aliases(implicit=True, external=external))
+        r = guarded(lambda: loader.resolve_aliases(implicit=implicit, external=external))
         if r[0] != "ok":
             return escape(f"resolve_aliases call {k + 1} raised", r)
         if snap is None:
-            snap = Snapshot(loader)                    # after the first call: includes what it side-loaded
+            snap = Snapshot(loader, implicit)                    # after the first call: includes what it side-loaded
         now = sorted(loader.modules_collection.members)
         unexp = unexpanded_wildcards(loader)
         calls.append({"unresolved": sorted(r[1][0]), "iterations": r[1][1], "state": snap.state(), "collection": now,
@@ -1058,15 +1158,17 @@ def replay_corpus(ctx):
     import json
     from pathlib import Path
     d = Path(__file__).resolve().parents[2] / "corpus" / "C06"
-    batch = []
+    batch, batch_explicit = [], []
     for f in sorted(d.glob("*.json")):
         c = json.loads(f.read_text())
         if "external" in c:
-            run_external(ctx, c["files"], c["loads"], c["external"], "corpus(side-loading)")
+            run_external(ctx, c["files"], c["loads"], c["external"], "corpus(side-loading)", implicit=bool(c.get("implicit", True)))
         else:
-            batch.append((c["files"], c.get("loads", ["p"]), bool(c.get("interleave", False))))
-    run_batch(ctx, batch, "corpus", pristine_share=0)
-    run_batch(ctx, batch, "corpus(pristine)", pristine_share=1)
+            item = (c["files"], c.get("loads", ["p"]), bool(c.get("interleave", False)), c.get("stubs"))
+            (batch if c.get("implicit", True) else batch_explicit).append(item)
+    run_batch(ctx, batch, "corpus", pristine_share=0, implicit_share=0)
+    run_batch(ctx, [b for b in batch if not b[3]], "corpus(pristine)", pristine_share=1, implicit_share=0)
+    run_batch(ctx, batch_explicit, "corpus(implicit=False)", pristine_share=0, implicit_share=1)
 
 
 def explore(ctx):
@@ -1103,6 +1205,12 @@ def explore(ctx):
     run_batch(ctx, [(exports_family(rng), ["p"], False) for _ in range(ctx.budget(500, 6000))], "exports-family(3 modules)")
     run_batch(ctx, [(exports_family(rng, ("p", "p.i", "p.i.a", "p.i.b")), ["p"], False) for _ in range(ctx.budget(200, 3000))],
               "exports-family(4 modules)")
+    # 3c. a stubs-only distribution in another search path, merged into the package while loading
+    batch = []
+    for _ in range(ctx.budget(300, 4000)):
+        files, stubs = random_stubs(rng)
+        batch.append((files, ["p"], False, stubs))
+    run_batch(ctx, batch, "stubs-package(other search path)", pristine_share=0)
     # 4. all load orders of <= 3 packages into one collection, with and without resolution between the loads
     batch = []
     for _ in range(ctx.budget(60, 600)):
@@ -1114,19 +1222,15 @@ def explore(ctx):
     # 5. packages side-loaded during resolve_aliases: external=True, and the private sibling _p with external=None
     for k in range(ctx.budget(250, 3000)):
         files = random_external(rng)
-        if k % 2:
-            run_external(ctx, files, [rng.choice(["p", "q", "_p"])], True, "side-loading(external=True)")
-        else:
-            run_external(ctx, files, ["p"], None, "side-loading(external=None, _p)")
+        ext = True if k % 2 else None
+        run_external(ctx, files, side_loads(rng, ext), ext, f"side-loading(external={ext})", implicit=(k % 5 != 4))
         if len(ctx.prop_failures) >= 20:
             break
     # 5b. the same with wildcard imports between the packages (side-loads inside expand_wildcards, packages importing back)
-    for k in range(ctx.budget(250, 3000)):
+    for k in range(ctx.budget(600, 6000)):
         files = random_external_wild(rng)
-        if k % 2:
-            run_external(ctx, files, [rng.choice(["p", "q", "_p"])], True, "side-loading+wildcards(external=True)")
-        else:
-            run_external(ctx, files, ["p"], None, "side-loading+wildcards(external=None, _p)")
+        ext = True if k % 2 else None
+        run_external(ctx, files, side_loads(rng, ext), ext, f"side-loading+wildcards(external={ext})", implicit=(k % 5 != 4))
         if len(ctx.prop_failures) >= 20:
             break
     if not ctx.quick:
@@ -1186,7 +1290,7 @@ def replay(ctx, data):
         shutil.rmtree(ctx.scratch, ignore_errors=True)
         return 0
     rec = run_impl(files, case.get("loads", ["p"]), str(ctx.scratch / "pk"), bool(case.get("interleave")), case.get("ops", OPS),
-                   bool(case.get("pristine")))
+                   bool(case.get("pristine")), bool(case.get("implicit", True)), case.get("stubs"))
     print("stage:", rec["stage"], rec["fail"])
     for o, st in zip(rec["obs"], rec["states"][1:]):
         print(o)
